@@ -229,7 +229,7 @@ pub fn run(ctx: &Ctx) -> (Outcome, String, Option<bool>) {
         p.max_steps = 30;
         p.max_txs = 14;
     }
-    let out = super::hist::run_histories(ctx, "pool-histories", p, ctx.scale(250, 5000), C15::default);
+    let out = super::hist::run_histories(ctx, "pool-histories", p, ctx.scale(1800, 18000), C15::default);
     let rule = "Generated histories dominated by pool requests (swap 26%, deposit 18%, withdraw 14% of transactions; up to 8/14 per batch) on built-in, brand-new and emptied pools, amounts from 0 and 1 to the whole holding, pool keys in canonical and 6 alternative spellings (27% of requests), Normal/Faucet/Stake transactions carrying data that parses as a pool key, ~10% mutations (including swapped kinds). Oracle per sealed block, from the real coins and pools before and after sealing: (i) every coin of a non-request transaction is unchanged; (ii) pools (lefts, rights, liqs) and all coins equal RefSTF's exact settlement (single batch price, 995/1000 fee, floor pro-rata, sqrt liquidity, MAX_COINVAL cap) - for alternative spellings either 'ignored' or 'settled as the canonical pool' is accepted; (iii) a pool moves only in a block with a request naming it; reserve product never decreases in swap-only blocks; liquidity tokens handed out <= liquidity minted. Non-trivial = a block with >=2 requests settled on one pool, or a request next to a non-request carrying a pool key; distinct by (pool root, coin root).".to_string();
     (out, rule, None)
 }
